@@ -88,7 +88,7 @@ def gen(tier, seed, info):
                                 "for five probed start states; all 2-setting histories over altscreen/cursorvis/mouse/keypad "
                                 "x six endings; the toplevel setup with and without altscreen")
     # 5. random histories
-    n = 5000 if quick else 300000
+    n = 5000 if quick else 800000
     for _ in range(n):
         top = rnd.random() < 0.15
         ops = []
